@@ -482,6 +482,68 @@ def run_inflight(R: Recorder, case: dict[str, Any], verbose: bool = False) -> No
                   detail=f"second call arrived {adv} after the first (expiration {exp}, unexpired) while the first invocation was running: {n} invocations, results {out['r1']} / {out['r2']}", case=case)
 
 
+def run_after_cancelled_invocation(R: Recorder, case: dict[str, Any], verbose: bool = False) -> None:
+    """async flavours: the running invocation ends cancelled - something it was waiting for was cancelled, or the event loop it ran in
+    was shut down (asyncio.run after a timeout) - and later (same loop / a new loop) the same key is asked for again: the caller gets a
+    value the function produced for it, not a cancellation nobody requested"""
+    from haiway import cache
+
+    flavour, how = case["flavour"], case["how"]
+    inv: list[int] = []
+    waits: list[asyncio.Future[None]] = []
+    deco = cache(limit=2)
+
+    async def body(who: str | None, x: int) -> Result:
+        inv.append(x)
+        if len(inv) == 1:
+            waits.append(asyncio.get_running_loop().create_future())
+            await waits[0]
+        else:
+            await asyncio.sleep(0)
+        return Result((who, x, len(inv)))
+
+    if flavour == "async":
+        @deco
+        async def fn(x: int) -> Result:
+            return await body(None, x)
+        call = fn
+    else:
+        class H(Receiver):
+            @deco
+            async def fn(self, x: int) -> Result:
+                return await body(self.name, x)
+        call = H("A").fn
+    out: dict[str, Any] = {}
+
+    async def first(loop: Any) -> None:
+        t1 = loop.create_task(call(1))
+        for _ in range(3):
+            await asyncio.sleep(0)
+        if how == "awaited-future-cancelled":
+            waits[0].cancel()
+            out["first"] = (await asyncio.gather(t1, return_exceptions=True))[0]
+            await later()
+        # else: the loop is shut down with the invocation still running (what asyncio.run does after its main coroutine is done)
+
+    async def later(loop: Any = None) -> None:
+        out["later"] = (await asyncio.gather(call(1), return_exceptions=True))[0]
+
+    status, value, loop = run_virtual(first, max_iterations=20000)
+    if status == "ok" and how == "loop-shut-down":
+        status, value, loop = run_virtual(later, max_iterations=20000)  # (run_virtual, like asyncio.run, cancelled what was left and closed the loop)
+    R.case(case, nontrivial=True)
+    R.count("calls_after_a_cancelled_invocation")
+    where = {"flavour": flavour, "exp": "none", "receivers": "identity", "after_cancelled_invocation": how}
+    if verbose:
+        print(status, value, out, inv)
+    if status != "ok":
+        R.monitor("right-key", False, where={**where, "kind": f"history-{status}"}, detail=f"history ended {status}: {value!r}", case=case)
+        return
+    later_res = out.get("later")
+    ok = isinstance(later_res, Result) and later_res.tag[1] == 1
+    R.monitor("right-key", ok, where={**where, "kind": "not-a-produced-value", "who": "later"}, detail=f"the first invocation ended cancelled ({how}); a later call of the same key received {later_res!r}; invocations {inv}", case=case)
+
+
 def run_scoped(R: Recorder, case: dict[str, Any], verbose: bool = False) -> None:
     """async flavours called from inside scopes (the way every real program calls them): the first caller, inside its own scope, misses
     and its scope is torn down (its task is cancelled / its body fails / it just finishes) while the invocation is running; a bystander
@@ -583,8 +645,10 @@ def exhaustive(tier: str):  # noqa: ANN201
         keys = KEYS3[flavour.endswith("method")]
         alphabet = [("call", r, a, False) for r, a in keys] + [("adv", 0.5), ("adv", 1.0)]
         for limit in (1, 2, 3):
-            for exp in (None, 1.0, 2.5):
+            for exp in (None, 1.0, 2.5, 0) if limit == 2 else (None, 1.0, 2.5):
                 top = maxlen + (1 if (tier == "quick" and flavour == "sync" and exp != 2.5) else 0)
+                if exp == 0:
+                    top = min(top, 4)  # an expiration of zero: nothing is ever served at a later instant
                 alpha = alphabet if exp is not None else alphabet[:3] + alphabet[3:4]  # advances are irrelevant without expiry: keep one
                 for length in range(1, top + 1):
                     for hist in itertools.product(alpha, repeat=length):
@@ -597,7 +661,7 @@ def random_case(rng: random.Random) -> dict[str, Any]:
     flavour = rng.choice(FLAVOURS)
     is_method = flavour.endswith("method")
     limit = rng.randint(1, 4)
-    exp = rng.choice([None, 1.0, 2.5, 0.5])
+    exp = rng.choice([None, 1.0, 2.5, 0.5, None, 1.0, 2.5, 0.5, 0.0, 0])
     nkeys = rng.randint(2, 6)
     vals = rng.sample(KEYS8, nkeys)
     hist: list[Any] = []
@@ -644,6 +708,8 @@ def run(R: Recorder, tier: str, seed: int, shard: int, nshards: int) -> None:
                     run_inflight(R, {"inflight": True, "flavour": flavour, "exp": exp_, "advance": adv, "release": order})
         for flavour, teardown, bystander in itertools.product(("async", "async-method"), ("none", "cancelled", "body-fails"), ("scoped", "plain")):
             run_scoped(R, {"scoped": True, "flavour": flavour, "teardown": teardown, "bystander": bystander})
+        for flavour, how in itertools.product(("async", "async-method"), ("awaited-future-cancelled", "loop-shut-down")):
+            run_after_cancelled_invocation(R, {"after_cancelled": True, "flavour": flavour, "how": how})
         argnames.check(R, "arguments", argname_wrappers())
         stacking.check_cache(R, "required-hit")
     R.flags["exhaustive_core"] = f"all histories up to length {EXH_LEN[tier]} over 3 keys + 2 advances x 4 flavours x limits 1-3 x expirations (none, 1, 2.5)"
@@ -673,6 +739,9 @@ def replay(R: Recorder, case: dict[str, Any]) -> None:
         return
     if case.get("scoped"):
         run_scoped(R, case, verbose=True)
+        return
+    if case.get("after_cancelled"):
+        run_after_cancelled_invocation(R, case, verbose=True)
         return
     if "stacking" in case:
         stacking.check_cache(R, "required-hit", only=case["stacking"])
